@@ -232,10 +232,12 @@ theorem stepDisp_InvR {cfg : Cfg} {s : St} (i : InvR s) : InvR (stepDisp cfg s) 
   split
   · exact InvR.finish (by decide) i
   · split
-    · exact InvR.setStatus (by decide) (by simp) i
-    · apply dispHandle_InvR
-      apply InvR.emit
-      ir i
+    · exact i
+    · split
+      · exact InvR.setStatus (by decide) (by simp) i
+      · apply dispHandle_InvR
+        apply InvR.emit
+        ir i
 
 theorem stepMon_InvR {cfg : Cfg} {s : St} (i : InvR s) (b : Bool) : InvR (stepMon cfg s b) := by
   unfold stepMon
@@ -318,7 +320,9 @@ theorem stepRun_InvR {cfg : Cfg} {s : St} (a : InvA cfg s) (i : InvR s) (hc : s.
       have hne : t ≠ .R := not_R_of_prog i0 hc0 hab hp (by simp)
       split
       · exact InvR.setStatus hne (by simp) i0
-      · apply InvR.finish hne; ir i0
+      · split
+        · exact i0
+        · apply InvR.finish hne; ir i0
     · rename_i hp
       have hne : t ≠ .R := not_R_of_prog i0 hc0 hab hp (by simp)
       split
@@ -403,10 +407,12 @@ theorem step_InvR {cfg : Cfg} {s : St} (a : InvA cfg s) (i : InvR s) (ev : Ev) :
     | callRecvNowait u =>
       simp only [step]
       split
-      · exact i.emit
+      · exact i
       · split
-        · apply InvR.emit; ir i
-        · split <;> exact i.emit
+        · exact i.emit
+        · split
+          · apply InvR.emit; ir i
+          · split <;> exact i.emit
     | callLogin u =>
       simp only [step]
       split
